@@ -34,6 +34,10 @@ type c07Sample struct {
 type c07Prof struct {
 	Types   []c07Type   `json:"types"`
 	Samples []c07Sample `json:"samples"`
+	// Build > 0: the profile comes from "another build" of the same program: everything that is NOT
+	// part of a report entry's identity at function granularity differs (function start lines and
+	// file names, line numbers, addresses, mapping range / build id / file), names stay.
+	Build int `json:"build,omitempty"`
 }
 
 // c07Case is the self-contained replay form of one case.
@@ -152,22 +156,33 @@ func c07Build(a *c07Prof, shift int) *profile.Profile {
 	for _, t := range a.Types {
 		p.SampleType = append(p.SampleType, &profile.ValueType{Type: t.Type, Unit: t.Unit})
 	}
-	m := &profile.Mapping{ID: 1, Start: 0x1000, Limit: 0x2000, File: "/nonexistent/c07prog", BuildID: "c07",
+	b := a.Build
+	if b < 0 || b > 3 {
+		b = 0
+	}
+	mstart := uint64(0x1000 + b*0x10000)
+	m := &profile.Mapping{ID: uint64(1 + b), Start: mstart, Limit: mstart + 0x1000, File: "/nonexistent/c07prog", BuildID: "c07",
 		HasFunctions: true, HasFilenames: true, HasLineNumbers: true, HasInlineFrames: true}
+	if b > 0 {
+		m.File, m.BuildID = fmt.Sprintf("/nonexistent/build%d/c07prog", b), fmt.Sprintf("c07-build%d", b)
+	}
 	p.Mapping = []*profile.Mapping{m}
 	fns := make([]*profile.Function, c07NFuncs)
 	for i := 0; i < c07NFuncs; i++ {
 		fns[i] = &profile.Function{ID: uint64((i+shift)%c07NFuncs) + 1, Name: c07FuncName(i), SystemName: c07FuncName(i),
-			Filename: fmt.Sprintf("src/f%d.go", i), StartLine: int64(10*i + 1)}
+			Filename: fmt.Sprintf("src/f%d.go", i), StartLine: int64(10*i + 1 + 100*b)}
+		if b > 0 {
+			fns[i].Filename = fmt.Sprintf("build%d/src/f%d.go", b, i)
+		}
 	}
 	p.Function = append(p.Function, fns...)
 	sort.Slice(p.Function, func(i, j int) bool { return p.Function[i].ID < p.Function[j].ID })
 	nl := len(c07LocFuncs)
 	locs := make([]*profile.Location, nl)
 	for j := 0; j < nl; j++ {
-		l := &profile.Location{ID: uint64((j+2*shift)%nl) + 1, Mapping: m, Address: 0x1000 + uint64(j)*16}
+		l := &profile.Location{ID: uint64((j+2*shift)%nl) + 1, Mapping: m, Address: mstart + uint64(j)*16 + uint64(b)*0x200}
 		for k, f := range c07LocFuncs[j] {
-			l.Line = append(l.Line, profile.Line{Function: fns[f], Line: int64(10*f + 2 + j + k)})
+			l.Line = append(l.Line, profile.Line{Function: fns[f], Line: int64(10*f + 2 + j + k + 100*b + 3*b)})
 		}
 		locs[j] = l
 	}
@@ -225,10 +240,14 @@ func c07Abstract(p *profile.Profile) (*c07Prof, []bool, error) {
 	for _, s := range p.Sample {
 		as := c07Sample{Values: append([]int64(nil), s.Value...)}
 		for _, l := range s.Location {
-			if l == nil || l.Address < 0x1000 || (l.Address-0x1000)%16 != 0 || int((l.Address-0x1000)/16) >= len(c07LocFuncs) {
+			if l == nil || l.Mapping == nil || l.Address < l.Mapping.Start || (l.Address-l.Mapping.Start)%16 != 0 {
 				return nil, nil, fmt.Errorf("location not of the universe")
 			}
-			j := int((l.Address - 0x1000) / 16)
+			off := l.Address - l.Mapping.Start
+			j := int(off%0x200) / 16
+			if off/0x200 > 3 || j >= len(c07LocFuncs) {
+				return nil, nil, fmt.Errorf("location not of the universe")
+			}
 			if len(l.Line) != len(c07LocFuncs[j]) {
 				return nil, nil, fmt.Errorf("location %d: %d lines, want %d", j, len(l.Line), len(c07LocFuncs[j]))
 			}
